@@ -39,7 +39,7 @@ def topo_cfg(max_n, max_ins, max_extra, extra_ext, independent=False, npool=2):
 
 # The implementation-shaped model follows the code AS READ TODAY.  Once the fixes/C09-*.patch are committed to
 # /repo set this to True: the model then uses the repaired assembly rules (and the known_findings become "fixed").
-MODEL_REPAIRED = False
+MODEL_REPAIRED = True
 
 
 def rule_cfg(exhaustive=False, max_hist=3, check_known=False, view=False, emit=True, full_alphabet=False, repaired=None):
@@ -411,7 +411,7 @@ def exhaustive_histories(ck: Check, rng, seq_topos, ind_topos, next_id):
 
 
 def refute_known_classes(ck: Check, rng):
-    """The implementation-shaped model is the code as read today: on the defect classes TLC must REFUTE
+    """With Repaired=FALSE the implementation-shaped model is the code as it was before the fix: commits: on the defect classes TLC must REFUTE
     AccIsTotal when it is demanded everywhere (the defects are found at specification level, and the model is
     not vacuous)."""
     cases = {
@@ -428,7 +428,7 @@ def refute_known_classes(ck: Check, rng):
         if shape == "additive":
             inst["osum"] = [3]
         inst["hist"] = [[[2] if shape == "additive" else [1, 2], sorted({o for s in t["outs"] for o in s}), shape != "additive", 1]]
-        r, _, _ = tlc_instances(ck, [inst], f"refute-{name}", expect_ok=False, check_known=True, emit=False)
+        r, _, _ = tlc_instances(ck, [inst], f"refute-{name}", expect_ok=False, check_known=True, emit=False, repaired=False)
         out[name] = r.violated
         if r.violated != "AccIsTotal":
             raise MachineryError(f"the implementation-shaped model does not show the known defect class {name}: {r.violated}")
